@@ -129,6 +129,66 @@ func runEngineG3(p *Prog, o *obls) {
 			}
 			use, w := usedAsKey(p, val, 0, map[ssa.Value]bool{})
 			if use == nil {
+				// an accessor that hands the value and its ok flag back together (`func (t *table) counterByTWCC(seq)
+				// (uint64, bool)`): the obligation moves to the callers — the value they receive is used as a key only
+				// where the flag they receive is true
+				vi, oi := -1, -1
+				for _, b := range fn.Blocks {
+					if ret, isRet := b.Instrs[len(b.Instrs)-1].(*ssa.Return); isRet {
+						for i, r := range ret.Results {
+							if p.origin(r) == ssa.Value(val) {
+								vi = i
+							}
+							if okv != nil && p.origin(r) == ssa.Value(okv) {
+								oi = i
+							}
+						}
+					}
+				}
+				if vi < 0 || oi < 0 {
+					return
+				}
+				sites, closed := p.staticCallSites(fn)
+				if !closed {
+					return
+				}
+				for _, cs := range sites {
+					cv := cs.Value()
+					if cv == nil || cv.Referrers() == nil {
+						continue
+					}
+					var cval, cok ssa.Value
+					for _, r := range *cv.Referrers() {
+						if ex, isEx := r.(*ssa.Extract); isEx {
+							if ex.Index == vi {
+								cval = ex
+							}
+							if ex.Index == oi {
+								cok = ex
+							}
+						}
+					}
+					if cval == nil {
+						continue
+					}
+					cuse, cw := usedAsKey(p, cval, 0, map[ssa.Value]bool{})
+					if cuse == nil {
+						continue
+					}
+					ckey := fmt.Sprintf("%s@%s", fieldKeyAddr(fa), funcKey(cs.Parent()))
+					g := false
+					for _, f := range dominatingFactsInstr(cuse) {
+						f = normFact(f)
+						if cok != nil && p.origin(f.cond) == p.origin(cok) && f.truth {
+							g = true
+						}
+					}
+					if g {
+						o.ok("G3", ckey, p.instrPos(cs), "the index map is read through "+funcKey(fn)+" (comma-ok, value and flag returned together); the value is used as "+cw+" only where the flag is true")
+					} else {
+						o.bad("G3", ckey, p.instrPos(cs), "the value "+funcKey(fn)+" returns from the index map "+fieldKeyAddr(fa)+" is used as "+cw+" without the returned ok flag being known true there: a miss yields 0, which names a real record")
+					}
+				}
 				return
 			}
 			guarded := false
